@@ -215,6 +215,7 @@ func (r *Registry) LoadOutputs(
 		// Outputs are already loaded, nothing to do
 		return nil
 	}
+	verifhook.Gate("outload", "t", target.Label.String())
 
 	if err := validateTargetResultOutputs(target, targetResult); err != nil {
 		return err
